@@ -47,6 +47,7 @@ func main() {
 
 	genXbin(*repo, *out)
 	genErrs(*repo, *out)
+	genLock(*repo, *out)
 	genSkeleton(*repo)
 
 	b, _ := json.MarshalIndent(fc, "", " ")
